@@ -1229,6 +1229,9 @@ def warm_configs(tier, seed):
     add("tucker", shape=shape, rank=[2, 3, 2], data="generic", tol="zero")
     for fx in subsets[1:7]:
         add("tucker", shape=shape, rank=[2, 3, 2], data="generic", tol="zero", fixed=fx)
+    # a fixed factor that is SQUARE (full rank of its mode): absorbing it into the core and projecting it out again is the identity
+    for rk, fx in (([4, 3, 2], [0]), ([2, 5, 2], [1]), ([4, 5, 2], [0, 1]), ([2, 3, 3], [2])):
+        add("tucker", shape=shape, rank=rk, data="generic", tol="zero", fixed=fx, caps=[0, 1, 2])
     # fixed modes given in arbitrary order, order-4 data
     for fx in ([1, 0], [2, 0], [2, 1], [2, 0, 1]):
         add("tucker", shape=shape, rank=[2, 3, 2], data="generic", tol="zero", fixed=fx)
@@ -1252,6 +1255,8 @@ def warm_configs(tier, seed):
                     ("nn_parafac_hals", {"init_kind": "nonneg", "tol": "tiny"}),
                     ("constrained_parafac", {"init_kind": "nonneg", "constraints": {"non_negative": True}})):
         for dt, data in (("float32", "nonneg"), ("int64", "counts"), ("int32", "counts")):
+            if alg == "nn_parafac" and dt != "float32":
+                continue          # the multiplicative-update routine takes machine epsilon of the DATA dtype: integer arrays are refused
             for fx, wk in (([], "none"), ([0], "none"), ([1, 0], "positive")):
                 base = dict(shape=shape, rank=2, data=data, data_dtype=dt, init_weights=wk, tol="zero", fixed=fx, caps=[0, 1, 2, 3])
                 base.update(kw)
